@@ -215,15 +215,39 @@ pub struct HintIter {
     pub items: std::vec::IntoIter<(It, Pr)>,
     pub lo: usize,
     pub hi: Option<usize>,
+    /// the iterator is NOT fused: polled again after it has returned `None`, it
+    /// yields this many more (poison) pairs.  `extend` / `collect` must stop at
+    /// the first `None`, as `Vec` and `HashMap` do; nothing correct ever sees them.
+    pub after_end: u32,
+    pub ended: bool,
+}
+pub const POISON_KEY: i64 = 987_654_321;
+impl HintIter {
+    pub fn new(items: Vec<(It, Pr)>, lo: usize, hi: Option<usize>) -> HintIter {
+        HintIter { items: items.into_iter(), lo, hi, after_end: 3, ended: false }
+    }
 }
 impl Iterator for HintIter {
     type Item = (It, Pr);
     #[inline]
     fn next(&mut self) -> Option<(It, Pr)> {
         fuse_tick();
-        self.items.next()
+        match self.items.next() {
+            Some(x) => Some(x),
+            None if !self.ended => {
+                self.ended = true;
+                None
+            }
+            None if self.after_end > 0 => {
+                self.after_end -= 1;
+                Some((It { key: POISON_KEY + self.after_end as i64, payload: 0 }, Pr(i64::MAX, 7)))
+            }
+            None => None,
+        }
     }
     fn size_hint(&self) -> (usize, Option<usize>) {
+        // under `hfuse` asking for the hint is a user callback as well
+        hash_tick();
         (self.lo, self.hi)
     }
 }
